@@ -19,7 +19,7 @@ import (
 )
 
 type c14Fault struct {
-	Kind string `json:"kind"` // none, list, open, open2, readerr, truncate, systemerr, badts
+	Kind string `json:"kind"` // none, list, open, open2, readerr, truncate, systemerr, badts, closeerr
 	Ctr  int    `json:"ctr,omitempty"`
 	Ctr2 int    `json:"ctr2,omitempty"`
 	At   int    `json:"at,omitempty"` // byte offset or frame index
@@ -55,6 +55,9 @@ var c14Shapes = []c14Shape{
 	{name: "invalid-right-template", n: 2, invalid: true, query: `sum(count_over_time({}[3s])) / sum(count_over_time({} | line_format "{{ .a | nosuchfunc }}" [3s]))`, params: logqlengine.EvalParams{Start: otelstorage.Timestamp(2 * sec), End: otelstorage.Timestamp(4 * sec), Step: time.Second, Limit: -1}},
 	{name: "invalid-right-unsupported", n: 1, invalid: true, query: `sum(count_over_time({}[3s])) * sum(absent_over_time({}[3s]))`, params: logqlengine.EvalParams{Start: otelstorage.Timestamp(4 * sec), End: otelstorage.Timestamp(4 * sec), Limit: -1}},
 	{name: "invalid-log-jsonpath", n: 2, invalid: true, query: `{} | json x="a..["`, params: logqlengine.EvalParams{Start: 0, End: otelstorage.Timestamp(10 * sec), Step: time.Second, Limit: -1}},
+	{name: "setop-or-2", n: 2, query: `sum by (container) (count_over_time({container="n0"}[5s])) or sum by (container) (count_over_time({container="n1"}[5s]))`, params: logqlengine.EvalParams{Start: otelstorage.Timestamp(4 * sec), End: otelstorage.Timestamp(4 * sec), Limit: -1}},
+	{name: "setop-unless-2", n: 2, query: `sum(count_over_time({container="n0"}[5s])) unless sum(count_over_time({container="n1"} |= "nothing" [5s]))`, params: logqlengine.EvalParams{Start: otelstorage.Timestamp(2 * sec), End: otelstorage.Timestamp(4 * sec), Step: time.Second, Limit: -1}},
+	{name: "setop-and-3", n: 3, query: `sum(count_over_time({container=~"n0|n2"}[5s])) and sum(count_over_time({container="n1"}[5s]))`, params: logqlengine.EvalParams{Start: otelstorage.Timestamp(4 * sec), End: otelstorage.Timestamp(4 * sec), Limit: -1}},
 	{name: "binop-2x2", n: 2, query: `sum(count_over_time({}[3s])) / sum(count_over_time({} |= "m"[2s]))`, params: logqlengine.EvalParams{Start: otelstorage.Timestamp(2 * sec), End: otelstorage.Timestamp(4 * sec), Step: time.Second, Limit: -1}},
 }
 
@@ -96,6 +99,9 @@ func c14Containers(sh c14Shape, f c14Fault) (ctrs []fakedocker.Container, frameS
 		c := fakedocker.Container{ID: fmt.Sprintf("id%d", i), Name: fmt.Sprintf("/n%d", i), Image: "img", State: "running", Log: log}
 		if (f.Kind == "open" && f.Ctr == i) || (f.Kind == "open2" && (f.Ctr == i || f.Ctr2 == i)) {
 			c.OpenErr = fakedocker.ErrInjected
+		}
+		if f.Kind == "closeerr" && f.Ctr == i {
+			c.CloseErr = fakedocker.ErrInjected
 		}
 		ctrs = append(ctrs, c)
 		frameStarts = append(frameStarts, starts)
@@ -255,6 +261,13 @@ func c14Oracle(in c14Input, o c14Obs) string {
 		}
 		return ""
 	}
+	if in.Fault.Kind == "closeerr" {
+		// a reader whose Close fails: every reader is still closed; whether Eval reports the Close error is not specified
+		if o.Err == "" && o.Result != base.Result {
+			return "a failing Close changed the result: " + o.Result + " vs " + base.Result
+		}
+		return ""
+	}
 	if o.Err == "" && o.Result != base.Result && in.Fault.Kind != "truncate" {
 		return "evaluation succeeded with a result that differs from the fault-free one (silently truncated): " + o.Result + " vs " + base.Result
 	}
@@ -363,6 +376,11 @@ func c14Run(r *vkit.Run) {
 				emit(c14Input{Shape: sh.name, Fault: c14Fault{Kind: "open2", Ctr: i, Ctr2: j}, Mode: openMode, Bound: openBound})
 			}
 		}
+		for i := 0; i < sh.n; i++ {
+			for _, pm := range perms(sh.n) {
+				emit(c14Input{Shape: sh.name, Fault: c14Fault{Kind: "closeerr", Ctr: i}, Mode: "perm", Perm: nilIf(sh.n == 1, pm)})
+			}
+		}
 		if sh.invalid {
 			continue
 		}
@@ -394,7 +412,7 @@ func c14Run(r *vkit.Run) {
 			}
 		}
 	}
-	r.Note("bounds", fmt.Sprintf("%d query shapes (log over 1/2/3 containers, with limit, range and instant count_over_time, two binary operations = two storage selections each); single faults: ContainerList error, ContainerLogs error of each container and of each pair (schedules: %s), read error at every byte offset and truncation at every byte offset of every stream, daemon-error frame and unparsable timestamp at every frame (all N! completion orders; read errors also preemption bound 1 on a 1/9 lattice)", len(c14Shapes), map[string]string{"bound": "preemption bound 2", "all": "every interleaving"}[openMode]))
+	r.Note("bounds", fmt.Sprintf("%d query shapes (log over 1/2/3 containers, with limit, range and instant count_over_time, arithmetic and set operations between two storage selections); single faults: a reader whose Close fails, ContainerList error, ContainerLogs error of each container and of each pair (schedules: %s), read error at every byte offset and truncation at every byte offset of every stream, daemon-error frame and unparsable timestamp at every frame (all N! completion orders; read errors also preemption bound 1 on a 1/9 lattice)", len(c14Shapes), map[string]string{"bound": "preemption bound 2", "all": "every interleaving"}[openMode]))
 }
 
 func nilIf(cond bool, p []int) []int {
